@@ -4,6 +4,7 @@ A station awaiting the reply to its GAP request — in `ClaimToken(ScanAwait)` d
 with an admitting reply; an idle station on a quiet bus.  Station-level helper lemmas (C02 / C12).
 -/
 import ProfiVerif.Lemmas.ListenNetR
+import ProfiVerif.Lemmas.AbstractRing
 
 namespace PV
 open StationGap TokenRing
